@@ -93,4 +93,40 @@ def runObs (W : World) : St → List Ev → List Obs
 def callerInit (W : World) (start : Nat) (w : Watch) : Caller :=
   { cur := start, scanning := W.late start, w := w }
 
+/-! ### shape of a walk failure (shared by the trace driver and by `Props/C09`)
+
+Both sides follow the best chain (grow / reorg events) and the block the caller was last told is current, and remember in
+which arm the rescan was when that block LEFT the best chain without the rescan having been told (it stays so labelled
+until the block is on the best chain again):
+  `catchup`  the rescan was in the catch-up arm: nobody will ever tell it                       → shape=reorg-during-catchup
+  `unread`   it was in the current arm: the disconnects are queued in its subscription; if it drops into the catch-up
+             arm before reading them (block fetch failure, missing filter header) they are lost  → shape=reorg-unread-at-catchup
+The label is re-evaluated once per event / trace op, with the arm the rescan was in BEFORE it. -/
+
+inductive Stale where
+  | no | catchup | unread
+deriving DecidableEq, Repr
+
+/-- is `cur` the block of the best chain at height `curH` -/
+def onChainB (chain : List Nat) (cur curH : Nat) : Bool := chain[curH]? == some cur
+
+def staleNext (st : Stale) (onChain armCurrent : Bool) : Stale :=
+  if onChain then .no
+  else match st with
+    | .no => if armCurrent then .unread else .catchup
+    | x => x
+
+/-- `shape=` tag of a connected callback for a non-child issued by a catch-up step -/
+def Stale.shape : Stale → String
+  | .no => "walk"
+  | .catchup => "reorg-during-catchup"
+  | .unread => "reorg-unread-at-catchup"
+
+/-- `shape=` tag of a walk failure: a disconnected callback that does not name the current block is never one of the
+recorded shapes; a connected callback for a non-child is one only when a catch-up step issued it -/
+def walkFailShape (st : Stale) (viaStep : Bool) : Cb → String
+  | .disc _ _ => "disconnect-not-current"
+  | .conn _ _ _ => if viaStep then st.shape else "walk"
+  | .exit => "walk"
+
 end Neutrino.Rescan
